@@ -64,6 +64,10 @@ class Encoder:
             except Exception:  # noqa
                 anc = None
         tag = None
+        if type(x).__name__ == "ScalarBoolean":
+            # convention of coq/Lib/Doc.v (is_sbool): an int-valued leaf carrying the YAML bool tag
+            return "i%d %s %s %s" % (self.oid(x), "none" if anc is None else hexs(anc),
+                                     "true" if has else "false", hexs("tag:yaml.org,2002:bool"))
         t = getattr(x, "tag", None)
         if t is not None:
             tv = getattr(t, "value", None)
@@ -125,3 +129,34 @@ def strip_identity(sx):
     if kind == "M":
         return ["M", [[strip_identity(k), strip_identity(v)] for k, v in sx[5]]]
     return [kind, [strip_identity(e) for e in sx[5]]]
+
+
+def merge_table(enc, data):
+    """Side table for YAML merge keys (C07): for every CommentedMap object with a
+    non-empty `.merge`, the positions (in items() order) of the keys that came
+    through `<<:` (ruamel keeps them physically in the map; `_ok` holds the
+    map's own keys) and the referenced maps.  Call after enc.node(data) so
+    that every object already has its oid.  Wire: ((i<oid> (i<pos> ...) (<node> ...)) ...)"""
+    from ruamel.yaml.comments import CommentedMap
+    out = []
+    done = set()
+
+    def go(x):
+        if isinstance(x, CommentedMap):
+            if id(x) not in done:
+                done.add(id(x))
+                refs = list(getattr(x, "merge", None) or [])
+                ok = getattr(x, "_ok", None)
+                if refs and ok is not None:
+                    poss = [i for i, k in enumerate(x.keys()) if k not in ok]
+                    out.append("(i%d (%s) (%s))" % (enc.oid(x), " ".join("i%d" % p for p in poss),
+                                                    " ".join(enc.node(r[1]) for r in refs)))
+                for r in refs:
+                    go(r[1])
+            for v in x.values():
+                go(v)
+        elif isinstance(x, (list, tuple)):
+            for e in x:
+                go(e)
+    go(data)
+    return "(%s)" % " ".join(out)
